@@ -213,7 +213,9 @@ def make_worker_world():
         if I.path.cond(out.t == O['RAISES'].t):
             I.raise_('Exception')
         if I.path.cond(out.t == O['EXITS'].t):
-            I.raise_('SystemExit')
+            # anything that is not an Exception: SystemExit (sys.exit() in user code), or another BaseException (KeyboardInterrupt raised by hand, GeneratorExit,
+            # a user-defined subclass)
+            I.raise_('SystemExit' if I.path.choose(2, 'which-base-exception') == 0 else 'KeyboardInterrupt')
         if I.path.cond(out.t == O['NONE'].t):
             return None
         if I.path.cond(out.t == O['PAIR'].t):
@@ -655,7 +657,14 @@ class AbstractGraph(ClassModel):
     fields = {}
 
     def _new(self, I, how, *src):
-        return I.alloc('AbsGraph', {'how': how, 'src': tuple(src), 'caller_owned': False})
+        '''content: what the graph holds, as a set of atoms -- 'H' / 'S' (the nodes and edges of the caller's hard / soft graph), ('flat', content) after
+        flatten().  Union for + and merge; flattening a union is NOT the union of the flattened parts (an empty nested graph used as a barrier loses the edges that
+        pass through it when its two sides are in different operands), so the order of the operations is part of the value.'''
+        content = {'caller-hard': frozenset(['H']), 'caller-soft': frozenset(['S'])}.get(how, frozenset())
+        for x in src:
+            if isinstance(x, SObj) and x.cls == 'AbsGraph':
+                content = content | I.getfield(x, 'content')
+        return I.alloc('AbsGraph', {'how': how, 'src': tuple(src), 'caller_owned': False, 'content': content})
 
     def m_copy(self, I, g):
         ev(I, 'copy', g)
@@ -663,6 +672,7 @@ class AbstractGraph(ClassModel):
 
     def m_flatten(self, I, g):
         ev(I, 'flatten', g)
+        I.setfield(g, 'content', frozenset([('flat', I.getfield(g, 'content'))]))
         return g
 
     def m___add__(self, I, g, other):
@@ -675,6 +685,34 @@ class AbstractGraph(ClassModel):
 
     def m_add_node(self, I, g, node):
         ev(I, 'add_node', g, node)
+        return g
+
+    # the other operations that work IN PLACE on the graph they are called on (valjean/cosette/depgraph.py: merge / += , add_dependency, remove_node,
+    # remove_dependency, graft, flatten): each is recorded as a mutation of that graph and returns it
+    def m_merge(self, I, g, other):
+        ev(I, 'merge', g, other)
+        if not (isinstance(other, SObj) and other.cls == 'AbsGraph'):
+            raise Undecided('merge with something that is not a graph')
+        I.setfield(g, 'content', I.getfield(g, 'content') | I.getfield(other, 'content'))
+        return g
+
+    def m___iadd__(self, I, g, other):
+        return self.m_merge(I, g, other)
+
+    def m_add_dependency(self, I, g, node, on=None):
+        ev(I, 'add_dependency', g, node, on)
+        return g
+
+    def m_remove_node(self, I, g, node):
+        ev(I, 'remove_node', g, node)
+        return g
+
+    def m_remove_dependency(self, I, g, node, on=None):
+        ev(I, 'remove_dependency', g, node, on)
+        return g
+
+    def m_graft(self, I, g, node):
+        ev(I, 'graft', g, node)
         return g
 
 
@@ -737,22 +775,19 @@ def init_check(I, scope, outcome):
     L = f'{SCHF}::Scheduler.__init__[{variant}]'
     if outcome[0] != 'return':
         return
-    mutating = [e for e in I.trace if e[0] in ('flatten', 'add_node')]
+    mutating = [e for e in I.trace if e[0] in ('flatten', 'add_node', 'merge', 'add_dependency', 'remove_node', 'remove_dependency', 'graft')]
     p.oblige(f'{L}::post::C02-the-graphs-of-the-caller-are-not-modified', all(not I.getfield(e[1], 'caller_owned') for e in mutating), kind='post',
              meta={'expr': 'flatten / add_node are applied to copies only'})
     hg, fg = I.getfield(me, 'hard_graph'), I.getfield(me, 'full_graph')
     ok = isinstance(hg, SObj) and isinstance(fg, SObj) and hg.cls == 'AbsGraph' and fg.cls == 'AbsGraph'
-    ok_h = ok and I.getfield(hg, 'how') == 'copy' and I.getfield(hg, 'src')[0] is I.hard0 and any(e[0] == 'flatten' and e[1] is hg for e in I.trace)
-    p.oblige(f'{L}::post::C02-the-hard-graph-is-a-flattened-copy-of-the-given-one', ok_h, kind='post', meta={'expr': 'self.hard_graph = hard_graph.copy(); flatten()'})
-    ok_f = ok and I.getfield(fg, 'how') == 'sum' and any(e[0] == 'flatten' and e[1] is fg for e in I.trace)
-    if ok_f:
-        a, b = I.getfield(fg, 'src')
-        ok_f = (a is I.hard0 or (isinstance(a, SObj) and I.getfield(a, 'how') == 'copy' and I.getfield(a, 'src')[0] is I.hard0))
-        if I.soft0 is not None:
-            ok_f = ok_f and isinstance(b, SObj) and (b is I.soft0 or (I.getfield(b, 'how') == 'copy' and I.getfield(b, 'src')[0] is I.soft0))
-        else:
-            ok_f = ok_f and isinstance(b, SObj) and I.getfield(b, 'how') == 'empty'
-    p.oblige(f'{L}::post::C02-the-full-graph-is-the-flattened-sum-of-the-hard-and-soft-graphs', ok_f, kind='post', meta={'expr': 'self.full_graph = hard_graph + soft_graph; flatten()'})
+    H, S = frozenset(['H']), frozenset(['S'])
+    ok_h = ok and hg is not I.hard0 and not I.getfield(hg, 'caller_owned') and I.getfield(hg, 'content') == frozenset([('flat', H)])
+    p.oblige(f'{L}::post::C02-the-hard-graph-is-a-flattened-copy-of-the-given-one', ok_h, kind='post', meta={'expr': 'self.hard_graph = flatten(copy of hard_graph)'})
+    want = frozenset([('flat', H | S if I.soft0 is not None else H)])
+    ok_f = ok and not I.getfield(fg, 'caller_owned') and fg is not hg and I.getfield(fg, 'content') == want
+    p.oblige(f'{L}::post::C02-the-full-graph-is-the-flattened-sum-of-the-hard-and-soft-graphs', ok_f, kind='post',
+             meta={'expr': 'self.full_graph = flatten(hard_graph + soft_graph): the sum of the graphs AS GIVEN is flattened (flattening the hard graph first loses the '
+                           f'edges through an empty nested graph); content found: {I.getfield(fg, "content") if ok else None}'})
     added = [e[2] for e in I.trace if e[0] == 'add_node' and e[1] is hg]
     p.oblige(f'{L}::post::C02-every-node-of-the-full-graph-is-a-node-of-the-hard-graph', ok and all(any(a is n for a in added) for n in I.node_list), kind='post',
              meta={'expr': 'for node in full_graph.nodes(): hard_graph.add_node(node)'})
